@@ -20,7 +20,7 @@ from vf.outidx import StubSet
 from vf.pipeline import run_case
 
 MOD = "c10"
-FOREIGN = [["ext", "decimal", "Decimal"], ["ext", "fractions", "Fraction"], ["ext", "collections", "OrderedDict"], ["ext", "pathlib", "Path"], ["ext", "xml.dom.minidom", "Document"], ["ext", "decimal", "Context"]]
+FOREIGN = [["ext", "decimal", "Decimal"], ["ext", "fractions", "Fraction"], ["ext", "collections", "OrderedDict"], ["ext", "pathlib", "Path"], ["ext", "xml.dom.minidom", "Document"], ["ext", "decimal", "Context"], ["ext", "concurrent.futures", "Executor"], ["ext", "concurrent.futures", "Future"]]
 
 
 @st.composite
@@ -101,7 +101,8 @@ def judge(case: dict) -> dict:
             allowed = {pm.split(".")[-1]}
             n_placeholder += 1
         if base not in allowed or base.startswith("_"):
-            discs.append(Discrepancy.make("file_name_wrong", rel, f"base name {base!r} is neither the module name nor the single declaration's name (allowed {sorted(allowed)[:6]})", []))
+            ftags = ["foreign:private_module_name"] if is_foreign and pm.split(".")[-1].startswith("_") else []
+            discs.append(Discrepancy.make("file_name_wrong", rel, f"base name {base!r} is neither the module name nor the single declaration's name, or keeps leading underscores (allowed {sorted(allowed)[:6]})", ftags))
         if not is_foreign and len(tops) == 1 and base == tops[0].python_name.lstrip("_") and base not in {n.lstrip("_") for n in module_names}:
             n_reexp += 1
         if not is_foreign and any(seg.startswith("_") for seg in pm.split(".")):
